@@ -24,7 +24,7 @@ package standard
 //@ ensures [size] len(data) > 0 && data[0] == 1 && len(data) != 17 ==> result != nil
 //@ ensures [v1] len(data) == 17 && data[0] == 1 ==> result == nil && s.SourceEpoch == s64(sl64(data, 1)) && s.TargetEpoch == s64(sl64(data, 9))
 //@ ensures [keep] result != nil && (len(data) == 0 || data[0] == 1) ==> s.SourceEpoch == old(s.SourceEpoch) && s.TargetEpoch == old(s.TargetEpoch)
-//@ ensures [gob] len(data) > 0 && data[0] != 1 ==> ((result == nil) <==> gobAttOk(bytes(data))) && (result == nil ==> s.SourceEpoch == gobAttS(bytes(data)) && s.TargetEpoch == gobAttT(bytes(data)))
+//@ ensures [gob] len(data) > 0 && data[0] != 1 ==> ((result == nil) <==> gobAttOk(bytes(data))) && (result == nil ==> s.SourceEpoch == (if gobAttHasS(bytes(data)) then gobAttS(bytes(data)) else old(s.SourceEpoch)) && s.TargetEpoch == (if gobAttHasT(bytes(data)) then gobAttT(bytes(data)) else old(s.TargetEpoch)))
 
 // ---- storage boundary (badger): db is the abstract key/value content ----
 
@@ -81,7 +81,7 @@ package standard
 //@ ensures [size] len(data) > 0 && data[0] == 1 && len(data) != 9 ==> result != nil
 //@ ensures [v1] len(data) == 9 && data[0] == 1 ==> result == nil && s.Slot == s64(sl64(data, 1))
 //@ ensures [keep] result != nil && (len(data) == 0 || data[0] == 1) ==> s.Slot == old(s.Slot)
-//@ ensures [gob] len(data) > 0 && data[0] != 1 ==> ((result == nil) <==> gobPropOk(bytes(data))) && (result == nil ==> s.Slot == gobPropL(bytes(data)))
+//@ ensures [gob] len(data) > 0 && data[0] != 1 ==> ((result == nil) <==> gobPropOk(bytes(data))) && (result == nil ==> s.Slot == (if gobPropHasL(bytes(data)) then gobPropL(bytes(data)) else old(s.Slot)))
 
 //@ func (*Service).fetchSignBeaconProposalState
 //@ reveal rowPropOk rowPropL
